@@ -1,4 +1,4 @@
-import SignalGen.Generated
+import SignalGen.Gen.Scalar
 import Mathlib.Tactic.IntervalCases
 /-!
 # Regenerated tie, C16: the `BitDepth` methods and `Scale` as the Go source defines them now equal the model's
